@@ -740,6 +740,9 @@ def run(ck: Checker):
         check_stop_flag(ck, 'C05-3', p)
         check_join_safety(ck, 'C05-4', p)
     check_marker_identity(ck, 'C05-2')
+    ck.rule('C05-10', 'the first failure reaches the consumer: the consumer of fifo_stream / async_fifo_stream leaves its loop normally only after it has dequeued the end marker — a loop that also ends on a timeout plus "the feeder is gone" swallows a forwarded source failure (or the last elements) that was enqueued just before the feeder ended (the C01-3 consumer obligations)', minimum=6)
+    for q_ in ('fifo_stream', 'async_fifo_stream'):
+        fifo.check_consumer_pairing(ck, 'C05-10', fifo.discover(ck.repo, ck.repo.func(STREAMER, q_)))
     check_helpers_released(ck, 'C05-5')
     ck.rule('C05-9', 'per-consumption state: the hand-off queue, stop flag and worker thread of Buffer / AsyncBuffer / SyncIter are created when an iteration starts, never by the constructor (leftovers of an aborted pass are not seen by the next) (ORIGIN)', minimum=3)
     check_per_run_state(ck, 'C05-9')
